@@ -1,50 +1,102 @@
 import PartituraModel.Wire
 import PartituraModel.Model.Pitch
+import PartituraModel.Model.Conversions
 
-open Wire Model
+open Wire Model Gen.C12
 
-def fmtMode : Mode → String
-  | .major => "major"
-  | .minor => "minor"
+/-- typed token: `-` = None, `s:<percent-encoded>` = str, `i:<int>` = int, `n:<rat>` = any other number -/
+def tagged : P (String × String) := do
+  let t ← tok
+  match t.toList with
+  | a :: ':' :: rest => pure (String.ofList [a], String.ofList rest)
+  | _ => P.fail
 
-def parseMode : P Mode := do
-  let t ← str
-  match modeOfString t with
-  | some m => pure m
-  | none => P.fail
+def pylit : P PyLit := fun ts => match ts with
+  | "-" :: ts => some (PyLit.none, ts)
+  | _ => (do
+      let (k, v) ← tagged
+      match k with
+      | "s" => pure (PyLit.str (decodeStr v))
+      | "i" => match v.toInt? with
+        | some i => pure (PyLit.num (i : Rat))
+        | none => P.fail
+      | "n" => match parseRat v with
+        | some r => pure (PyLit.num r)
+        | none => P.fail
+      | _ => P.fail) ts
+
+def alterArg : P AlterArg := fun ts => match ts with
+  | "-" :: ts => some (AlterArg.none, ts)
+  | _ => (do
+      let (k, v) ← tagged
+      match k with
+      | "s" => pure (AlterArg.sign (decodeStr v))
+      | "i" => match v.toInt? with
+        | some i => pure (AlterArg.int i)
+        | none => P.fail
+      | "n" => match parseRat v with
+        | some r => pure (AlterArg.num r)
+        | none => P.fail
+      | _ => P.fail) ts
+
+def octArg : P OctArg := fun ts => match ts with
+  | "-" :: ts => some (OctArg.none, ts)
+  | _ => (do
+      let (k, v) ← tagged
+      match k with
+      | "s" => pure (OctArg.str (decodeStr v))
+      | "i" => match v.toInt? with
+        | some i => pure (OctArg.int i)
+        | none => P.fail
+      | "n" => match parseRat v with
+        | some r => pure (OctArg.num r)
+        | none => P.fail
+      | _ => P.fail) ts
+
+/-- a keyword that may be left out: `D` = use the default of the signature -/
+def orDefault {α : Type} (p : P α) : P (Option α) := fun ts => match ts with
+  | "D" :: ts => some (none, ts)
+  | _ => match p ts with
+    | some (a, ts') => some (some a, ts')
+    | none => none
 
 def orErr (o : Option String) : String := o.getD "err"
+
+def fmtSpelling (r : String × Option Int × Option Int) : String :=
+  fmtTuple [r.1, fmtOpt fmtInt r.2.1, fmtOpt fmtInt r.2.2]
 
 def handle (ts : List String) : String :=
   match ts with
   | "s2m" :: rest =>
     orErr <| (run (do let s ← str; let a ← opt int; let o ← int; pure (s, a, o)) rest).bind fun (s, a, o) =>
-      (spellingToMidi s a o).map fmtInt
+      (spellingToMidiG s a o).map fmtInt
   | "m2s" :: rest =>
-    orErr <| (run int rest).bind fun p =>
-      (midiToSpelling p).map fun (s, a, o) => fmtTuple [s, fmtInt a, fmtInt o]
+    orErr <| (run int rest).bind fun p => (midiToSpellingG p).map fmtSpelling
   | "s2n" :: rest =>
     orErr <| (run (do let s ← str; let a ← int; let o ← int; pure (s, a, o)) rest).map fun (s, a, o) =>
       spellingToNoteName s a o
   | "n2s" :: rest =>
-    orErr <| (run str rest).bind fun n =>
-      (noteNameToSpelling n).map fun (s, a, o) => fmtTuple [s, fmtOpt fmtInt a, fmtInt o]
+    orErr <| (run str rest).bind fun n => (noteNameToSpellingG n).map fmtSpelling
   | "n2m" :: rest =>
-    orErr <| (run str rest).bind fun n => (noteNameToMidi n).map fmtInt
+    orErr <| (run str rest).bind fun n => (noteNameToMidiG n).map fmtInt
+  | "epsf" :: rest =>
+    orErr <| (run (do let s ← str; let a ← alterArg; let o ← octArg; pure (s, a, o)) rest).bind fun (s, a, o) =>
+      (ensureFormat s a o).map fmtSpelling
   | "step2pc" :: rest =>
     orErr <| (run (do let s ← str; let a ← int; pure (s, a)) rest).bind fun (s, a) =>
       (step2pc s a).map fmtInt
+  | "asign" :: rest =>
+    orErr <| (run (opt int) rest).bind fun a => (alterSign a).map fun s => "s:" ++ s
   | "f2k" :: rest =>
-    -- an unknown mode is rejected by the parser: `err`
-    orErr <| (run (do let f ← int; let m ← parseMode; pure (f, m)) rest).bind fun (f, m) =>
-      fifthsModeToKeyName f m
+    orErr <| (run (do let f ← int; let m ← orDefault pylit; pure (f, m)) rest).bind fun (f, m) =>
+      fifthsModeToKeyNameG f (m.getD f2kDefaultMode)
   | "k2f" :: rest =>
     orErr <| (run str rest).bind fun n =>
-      (keyNameToFifthsMode n).map fun (f, m) => fmtTuple [fmtInt f, fmtMode m]
+      (keyNameToFifthsModeG n).map fun (f, m) => fmtTuple [fmtInt f, modeName m]
   | "kmi" :: rest =>
-    orErr <| (run parseMode rest).map fun m => fmtInt (keyModeToInt m)
+    orErr <| (run pylit rest).bind fun m => (keyModeToIntG m).map fmtInt
   | "kim" :: rest =>
-    orErr <| (run parseMode rest).map fun m => fmtMode m
+    orErr <| (run pylit rest).bind fun m => keyIntToModeG m
   | "csi" :: rest => orErr <| (run str rest).bind fun s => (clefSignToInt s).map fmtInt
   | "cis" :: rest => orErr <| (run int rest).bind fun i => clefIntToSign i
   | "tqt" :: rest =>
@@ -54,27 +106,34 @@ def handle (ts : List String) : String :=
     orErr <| (run (do let ty ← str; let d ← nat; let a ← opt nat; let n ← opt nat; let dv ← rat
                       pure (ty, d, a, n, dv)) rest).bind fun (ty, d, a, n, dv) =>
       (symbolicToNumeric (ty, d, a, n) dv).map fmtRat
+  | "fsd" :: "N" :: [] => "s:" ++ formatSymbolic none
+  | "fsd" :: rest =>
+    orErr <| (run (do let ty ← opt str; let d ← opt nat; let a ← opt nat; let n ← opt nat
+                      pure (ty, d, a, n)) rest).map fun x => "s:" ++ formatSymbolic (some x)
   | "ivs" :: rest =>
     orErr <| (run (do let q ← str; let n ← nat; pure (q, n)) rest).bind fun (q, n) =>
       (intervalSemitones q n).map fmtInt
   | "ivq" :: rest =>
     orErr <| (run (do let q ← str; let n ← nat; let k ← int; pure (q, n, k)) rest).bind fun (q, n, k) =>
-      (changeQuality n q k).bind fun q' => (intervalSemitones q' n).map fun s => fmtTuple [q', fmtInt s]
+      (changeQualityG n q k).bind fun q' => (intervalSemitones q' n).map fun s => fmtTuple [q', fmtInt s]
   | "ivv" :: rest =>
-    orErr <| (run (do let q ← str; let n ← nat; let d ← str; pure (q, n, d)) rest).map fun (q, n, d) =>
-      fmtBool (intervalValid q n d)
+    orErr <| (run (do let q ← str; let n ← nat; let d ← orDefault str; pure (q, n, d)) rest).map fun (q, n, d) =>
+      fmtBool (intervalValidD q n d)
   | "tupm" :: rest =>
-    orErr <| (run (do let a ← nat; let n ← nat; let ta ← str; let tn ← str; pure (a, n, ta, tn)) rest).bind
-      fun (a, n, ta, tn) => if a = 0 then none else (tupletMultiplier a n ta tn).map fmtRat
+    orErr <| (run (do let a ← nat; let n ← nat; let ta ← opt str; let tn ← opt str; pure (a, n, ta, tn)) rest).bind
+      fun (a, n, ta, tn) => (tupletMultiplierO a n ta tn).map fmtRat
   | "sec2tick" :: rest =>
-    orErr <| (run (do let t ← rat; let m ← nat; let p ← nat; pure (t, m, p)) rest).bind fun (t, m, p) =>
-      if m = 0 then none else some (fmtInt (secToTick t m p))
+    orErr <| (run (do let t ← rat; let m ← orDefault nat; let p ← orDefault nat; pure (t, m, p)) rest).bind
+      fun (t, m, p) => (secToTickG t m p).map fmtInt
   | "tick2sec" :: rest =>
-    orErr <| (run (do let k ← int; let m ← nat; let p ← nat; pure (k, m, p)) rest).bind fun (k, m, p) =>
-      if p = 0 then none else some (fmtRat (tickToSec k m p))
+    orErr <| (run (do let k ← rat; let m ← orDefault nat; let p ← orDefault nat; pure (k, m, p)) rest).bind
+      fun (k, m, p) => (tickToSecG k m p).map fmtRat
+  | "m2f" :: rest =>
+    orErr <| (run (do let p ← rat; let a ← orDefault rat; pure (p, a)) rest).bind fun (p, a) =>
+      (midiToFreqQ p a).map fmtRat
   | "mpq" :: rest =>
     orErr <| (run (do let u ← opt str; let b ← rat; pure (u, b)) rest).bind fun (u, b) =>
-      (microsecondsPerQuarter u b).map fmtInt
+      (microsecondsPerQuarterG u b).map fmtInt
   | _ => "bad-request"
 
 def main : IO Unit := mainLoop handle
